@@ -35,9 +35,10 @@ TagSet(s, i, x) == IF s = "" THEN {} ELSE {<<s, i, x>>}
 
 \* classification of a failed block list: is it exactly what the known stale-Begin defect produces
 \* from the sections the code itself built?  (then, and only then, the tag carries /staleBegin)
-BlkTag(tag, rawsecs, bs, obs) ==
+BlkTag(L, i, tag, rawsecs, bs, obs) ==
     IF tag = "" THEN ""
-    ELSE IF obs = CalcBlocks(rawsecs, bs, TRUE) THEN tag \o "/staleBegin"
+    ELSE IF SectionsOK(L, i, rawsecs) /\ obs = CalcBlocks(rawsecs, bs, TRUE) /\ obs # CalcBlocks(rawsecs, bs, FALSE)
+         THEN tag \o "/staleBegin"
     ELSE tag
 
 \* position of read (off, n) in the canonical enumeration  off = 0.., n = 1..len-off
@@ -56,7 +57,7 @@ PieceViolsByte(L, e, i) ==
     LET len == PieceLen(L, i)
         m   == Masked(L, i)
     IN  PieceViolsCommon(L, e, i)
-        \cup UNION {TagSet(BlkTag(BlocksViolSet(L, i, e.blk[k][i + 1], e.bss[k]), e.secs[i + 1], e.bss[k], e.blk[k][i + 1]),
+        \cup UNION {TagSet(BlkTag(L, i, BlocksViolSet(L, i, e.blk[k][i + 1], e.bss[k]), e.secs[i + 1], e.bss[k], e.blk[k][i + 1]),
                            i, e.bss[k]) : k \in 1 .. Len(e.bss)}
         \* @obligation C02.read
         \cup (IF Len(e.rd[i + 1]) # (len * (len + 1)) \div 2 THEN {<<"C02.read.count", i, 0>>}
@@ -66,7 +67,7 @@ PieceViolsByte(L, e, i) ==
 \* ---- scaled line (unit > 1): interval formulation, run-length encoded reads at boundary offsets
 PieceViolsScaled(L, e, i) ==
     PieceViolsCommon(L, e, i)
-    \cup UNION {TagSet(BlkTag(BlocksViolIv(L, i, e.blk[k][i + 1], e.bss[k]), e.secs[i + 1], e.bss[k], e.blk[k][i + 1]),
+    \cup UNION {TagSet(BlkTag(L, i, BlocksViolIv(L, i, e.blk[k][i + 1], e.bss[k]), e.secs[i + 1], e.bss[k], e.blk[k][i + 1]),
                        i, e.bss[k]) : k \in 1 .. Len(e.bss)}
     \cup UNION {T(e.rds[i + 1][r][3] = ExpRLE(L, Lo(L, i) + e.rds[i + 1][r][1], Lo(L, i) + e.rds[i + 1][r][1] + e.rds[i + 1][r][2]),
                   "C02.read", i, e.rds[i + 1][r][1]) : r \in 1 .. Len(e.rds[i + 1])}
@@ -85,6 +86,7 @@ LayoutViols(e) ==
             \* @obligation C02.write  every non-padding byte lands at (file, offset); padding is never written
             \cup T(e.werr = 0, "C02.write.err", 0, e.werr)
             \cup T(e.wpanic = 0, "C02.write.padding", 0, e.wpanic)
+            \cup T(e.padopen = 0, "C02.write.padding", 0, e.padopen)      \* the allocator opened a padding file in storage
             \cup T(e.oob = 0, "C02.oob", 0, e.oob)
             \cup T(e.rerr = 0, "C02.read.err", 0, e.rerr)
             \cup UNION {T(e.disk[f] = IF e.mode = "byte" THEN FinalDisk(L)[f] ELSE FinalDiskRLE(L, f), "C02.write.disk", 0, f)
